@@ -8,6 +8,8 @@ CONSTANTS
   PMaxLen = 4
   CUnits <- MCUnits
   CCps <- MCCps
+  MaxOps = 4
+  AllowSharedMutation = FALSE
   Pairs <- MCPairs
   BaseOf <- MCBaseOf
 INIT Init
